@@ -119,10 +119,10 @@ fn check_triple(i: u64, st: &mut Stats) -> Result<(), String> {
     }
 }
 
-fn desc_word(i: u64) -> Value {
+fn desc_word(_t: Tier, i: u64) -> Value {
     json!({"header": format!("{:#06x}", i as u16)})
 }
-fn desc_triple(i: u64) -> Value {
+fn desc_triple(_t: Tier, i: u64) -> Value {
     json!({"kind": kind_name(((i >> 14) & 3) as u16), "label_type_bits": (i >> 12) & 3, "gse_len": i & 0xFFF})
 }
 
